@@ -115,6 +115,40 @@ def oneshotElement {α β : Type} (f : ArrayFiles α β) (i : Nat) : Except PErr
 def resultPath {α β : Type} (scratch : Str) (j : RJob α β) : Str := jobFile scratch j.evalHash fOutput
 def errorPath {α β : Type} (scratch : Str) (j : RJob α β) : Str := jobFile scratch j.evalHash fError
 
+/-! ### where one array element of `redun oneshot --array-job` writes, for every point at which it can fail -/
+
+/-- the points of `oneshot_command` at which an element can fail: before the task is looked up (code package
+extraction, `--import-path`, `import_script`, unknown task), or in the task itself (input unpickling, the task body,
+pickling the result) -/
+inductive FailAt where
+  | code | importScript | taskLookup | task
+  deriving DecidableEq, Repr
+
+inductive FileOp where
+  | remove (path : Str)
+  | writeError (path : Str)
+  | writeOutput (path : Str)
+  deriving DecidableEq, Repr
+
+def FileOp.path : FileOp → Str
+  | .remove p => p
+  | .writeError p => p
+  | .writeOutput p => p
+
+/-- file operations of array element `i` (`cache = false` is `--no-cache`, which skips removing an old output):
+the element's own error path is looked up and cleared *before* the `try`, so every later failure is recorded there -/
+def oneshotOps {α β : Type} (f : ArrayFiles α β) (i : Nat) (cache : Bool) (fail : Option FailAt) :
+    Except PErr (List FileOp) := do
+  let e ← idx f.errorPaths i
+  match fail with
+  | some .code | some .importScript | some .taskLookup => pure [.remove e, .writeError e]
+  | some .task =>
+    let o ← idx f.outputPaths i
+    pure ([.remove e] ++ (if cache then [.remove o] else []) ++ [.writeError e])
+  | none =>
+    let o ← idx f.outputPaths i
+    pure ([.remove e] ++ (if cache then [.remove o] else []) ++ [.writeOutput o])
+
 /-! ### job reuniting -/
 
 /-- a job the Batch API reports as in flight; `children` = (child job id, array index) pairs listed for
